@@ -8,35 +8,35 @@ package mcap
 /*@ func getUint16
     safety C10
     requires offset >= 0
-    ensures err == nil ==> newoffset == offset + 2 && newoffset <= len(buf)
+    ensures err == nil ==> newoffset == offset + 2 && newoffset <= len(buf) && x == le16at(buf, offset)
     ensures err != nil ==> newoffset == 0
 @*/
 
 /*@ func getUint32
     safety C10
     requires offset >= 0
-    ensures err == nil ==> newoffset == offset + 4 && newoffset <= len(buf)
+    ensures err == nil ==> newoffset == offset + 4 && newoffset <= len(buf) && x == le32at(buf, offset)
     ensures err != nil ==> newoffset == 0
 @*/
 
 /*@ func getUint64
     safety C10
     requires offset >= 0
-    ensures err == nil ==> newoffset == offset + 8 && newoffset <= len(buf)
+    ensures err == nil ==> newoffset == offset + 8 && newoffset <= len(buf) && x == le64at(buf, offset)
     ensures err != nil ==> newoffset == 0
 @*/
 
 /*@ func getPrefixedString
     safety C10
     requires offset >= 0 && offset <= len(data)
-    ensures err == nil ==> newoffset >= offset + 4 && newoffset <= len(data) && len(s) == newoffset - offset - 4
+    ensures err == nil ==> newoffset == offset + 4 + le32at(data, offset) && newoffset <= len(data) && len(s) == newoffset - offset - 4
     ensures err != nil ==> newoffset == 0
 @*/
 
 /*@ func getPrefixedBytes
     safety C10
     requires offset >= 0 && offset <= len(data)
-    ensures err == nil ==> newoffset >= offset + 4 && newoffset <= len(data) && len(s) == newoffset - offset - 4
+    ensures err == nil ==> newoffset == offset + 4 + le32at(data, offset) && newoffset <= len(data) && len(s) == newoffset - offset - 4
     ensures err != nil ==> newoffset == 0
 @*/
 
